@@ -198,7 +198,9 @@ pub fn run(ctx: &Ctx) -> Outcome {
                 // quick: every address for one code per kind (+ count), the rest on a stride; thorough: all 30 codes
                 for (i, m) in all.iter().enumerate() {
                     let is_first_of_kind = matches!(i, 0..=4) || i == 5 || i == 6 || i == 17;
-                    if !ctx.quick() || is_first_of_kind || addr % 251 == (i as u16) % 251 {
+                    // (every code at every address in both tiers: 2 million messages cost two seconds)
+                    let _ = is_first_of_kind;
+                    {
                         let w = check_message(m, rep);
                         inj.note(w, m, rep);
                     }
